@@ -127,6 +127,32 @@ func rewriteFile(src, out string) (bool, error) {
 		}
 	}
 	redirected := false
+	osName := ""
+	for _, im := range f.Imports {
+		if p, _ := strconv.Unquote(im.Path.Value); p == "os" {
+			osName = "os"
+			if im.Name != nil {
+				osName = im.Name.Name
+			}
+		}
+	}
+	osRedirected := false
+	if osName != "" && osName != "_" && osName != "." {
+		ast.Inspect(f, func(n ast.Node) bool {
+			sel, ok := n.(*ast.SelectorExpr)
+			if !ok {
+				return true
+			}
+			x, ok := sel.X.(*ast.Ident)
+			if ok && x.Name == osName && x.Obj == nil && sel.Sel.Name == "ReadFile" {
+				x.Name = "vtlsshim"
+				redirected = true
+				osRedirected = true
+			}
+			return true
+		})
+	}
+	tlsRedirected := false
 	if tlsName != "" && tlsName != "_" && tlsName != "." {
 		ast.Inspect(f, func(n ast.Node) bool {
 			sel, ok := n.(*ast.SelectorExpr)
@@ -137,6 +163,7 @@ func rewriteFile(src, out string) (bool, error) {
 			if ok && x.Name == tlsName && x.Obj == nil && sel.Sel.Name == "LoadX509KeyPair" {
 				x.Name = "vtlsshim"
 				redirected = true
+				tlsRedirected = true
 			}
 			return true
 		})
@@ -153,7 +180,13 @@ func rewriteFile(src, out string) (bool, error) {
 		// add the import as a separate declaration right after the package clause's import block
 		// (textually: after the first "import (" line), keeping crypto/tls alive even if that was its only use.
 		add := "\n\tvtlsshim " + strconv.Quote(tlsShim) + "\n"
-		keep := "\nvar _ = " + tlsName + ".VersionTLS13 // c14 rewrite: keeps crypto/tls imported\n"
+		keep := ""
+		if tlsRedirected {
+			keep += "\nvar _ = " + tlsName + ".VersionTLS13 // c14 rewrite: keeps crypto/tls imported\n"
+		}
+		if osRedirected {
+			keep += "\nvar _ = " + osName + ".ErrNotExist // c14 rewrite: keeps os imported\n"
+		}
 		if i := strings.Index(s, "import ("); i >= 0 {
 			s = s[:i+len("import (")] + add + s[i+len("import ("):]
 		} else if i := strings.Index(s, "\nimport "); i >= 0 {
